@@ -183,6 +183,36 @@ def h_binop(ctx, op, lkind, rkind, lshape, rshape, D, P, lc=False, rc=False, for
         ctx.eq(plain(y.data), ysnap, 'right operand unchanged')
 
 
+def h_inplace_rank(ctx, op, rkind, rshape, D, P):
+    """x op= r with a right operand that does not broadcast INTO x.shape: NumPy raises for the
+    plain arrays (an in-place operator cannot change the shape of its left operand) and so must
+    the polynomial operator -- it may not silently combine the extra axis with the direction or
+    coefficient axis, or keep only one row of r"""
+    import operator
+    algopy = symx.load_algopy()
+    X = np.empty((D, P, 3), dtype=object)
+    for idx in np.ndindex(*X.shape):
+        X[idx] = ctx.var('x%s' % list(idx))
+    x = mk_utpm(ctx, algopy, X)
+    before = plain(x.data).copy()
+    if rkind == 'utpm':
+        R = np.empty((D, P) + tuple(rshape), dtype=object)
+    else:
+        R = np.empty(tuple(rshape), dtype=object)
+    for idx in np.ndindex(*R.shape):
+        R[idx] = ctx.var('r%s' % list(idx), pos=True)
+    r = mk_utpm(ctx, algopy, R) if rkind == 'utpm' else mk_array(ctx, R)
+    f = {'add': operator.iadd, 'sub': operator.isub, 'mul': operator.imul, 'div': operator.itruediv}[op]
+    try:
+        f(x, r)
+        raised = False
+    except ValueError:
+        raised = True
+    ctx.fact(raised, 'x(3,) %s= %s%s raises ValueError as for ndarrays (result shape %s)' % (op, rkind, tuple(rshape), tuple(x.shape)))
+    if raised:
+        ctx.eq(plain(x.data), before, 'left operand untouched by the rejected operation')
+
+
 def h_pow_kinds(ctx, which, D, P):
     """powers with non-UTPM base / exponent kinds, against the C01 oracle"""
     algopy = symx.load_algopy()
@@ -322,6 +352,9 @@ def units(tier, seed):
         for form, shp in [('x op= x', (2,)), ('x op= x[::-1]', (3,)), ('x op= x.T', (2, 2)), ('x op= x[0]', (2, 2)), ('x op= x[0:1]', (2, 2))]:
             out.append(Unit('C02/in-place, overlapping right operand/%s/%s/%s' % (form, opn, shp), 'symx.props.c14', 'h_alias',
                             {'opn': opn, 'form': form, 'shape': shp, 'D': 3, 'P': 2}, {'property': PROP}))
+    for op in ('add', 'sub', 'mul', 'div'):
+        for rkind, rshape in (('utpm', (2, 3)), ('ndarray', (3, 3)), ('ndarray', (2, 3)), ('ndarray', (2, 2, 3)), ('utpm', (3, 1))):
+            add('utpm(3,) %s= %s%s must raise (D2, P2 and P3)' % (op, rkind, rshape), 'h_inplace_rank', op=op, rkind=rkind, rshape=rshape, D=2, P=(3 if rshape[0] == 3 else 2))
     # operands of extreme magnitude (2**600, 2**-600): intermediate squares over/underflow in floats
     for op in ('mul', 'div'):
         for k in (600, -600):
